@@ -4,8 +4,17 @@ import numpy as np
 from . import geomdecide, t4read
 
 
-def structural_cls(t4):
-    """Classification of the first structural problem, or None."""
+def structural_cls(t4, options=None):
+    """Classification of the first structural problem, or None.  When the command-line options are given, the
+    sections that those options do not switch off must be present."""
+    if options is not None:
+        opts = list(options)
+        if '--skip-geomcomp' not in opts and 'GEOMCOMP' not in t4.sections and t4.nonvirtual():
+            t4.problem('missing-section', 'no GEOMCOMP block although --skip-geomcomp was not given')
+        if '--skip-compositions' not in opts and 'COMPOSITION' not in t4.sections:
+            t4.problem('missing-section', 'no COMPOSITION block although --skip-compositions was not given')
+        if 'GEOMETRY' not in t4.sections:
+            t4.problem('missing-section', 'no GEOMETRY block')
     if not t4.problems:
         return None, ''
     rule, detail = t4.problems[0]
